@@ -1,6 +1,6 @@
 from __future__ import annotations
 import typing
-from types import CodeType
+from types import CodeType, FunctionType
 
 import sympy
 from structlog import get_logger
@@ -75,9 +75,21 @@ def get_scheme(scheme: str) -> scheme_func:
             stacklevel=3,
         )
 
-    # Replace the name of the function
-    func.__code__ = func.__code__.replace(co_name=scheme)
-    return func
+    # Return a copy of the function with the requested name. The module
+    # level function itself must not be modified, since that would change
+    # the name of functions returned by earlier calls
+    renamed = FunctionType(
+        func.__code__.replace(co_name=scheme),
+        func.__globals__,
+        name=scheme,
+        argdefs=func.__defaults__,
+        closure=func.__closure__,
+    )
+    renamed.__kwdefaults__ = func.__kwdefaults__
+    renamed.__annotations__ = func.__annotations__
+    renamed.__doc__ = func.__doc__
+    renamed.__module__ = func.__module__
+    return typing.cast(scheme_func, renamed)
 
 
 def list_schemes() -> list[str]:
